@@ -665,7 +665,7 @@ Definition analyze_m15 (s : script) : bool :=
   | None => false
   | Some l =>
     (match lra_f l with FRate | FCountOverTime => true | _ => false end)
-    && negb (Z.ltb (lra_dur_ns l) 15000000000)
+    && negb (Z.ltb (lra_dur_ns l) 15000000000) && Z.eqb (Z.rem (lra_dur_ns l) 15000000000) 0
     && forallb m15_stage_ok (sel_pipeline (lra_sel l))
   end.
 
